@@ -194,20 +194,18 @@ Ordered == \A fmt \in Formats :
   LET q == es[fmt] IN
   \A i, j \in DOMAIN q : i < j => (q[i].f < q[j].f \/ (q[i].f = q[j].f /\ (q[j].k # "ser" => q[i].k # "ser")))
 
-\* recorded deviations of the parsers (see notes/C35.md); the flags tell the harness where they can show
-\* KF-C35-1: OpenMetrics timestamps are converted with int64(seconds * 1000) (truncation) - float-level, replay-only
-KF1 == \E f \in DOMAIN payload : \E m \in DOMAIN payload[f].ms : payload[f].ms[m].ts \in {"small", "y2004"}
-\* KF-C35-2: the OpenMetrics parser keeps the unit of an earlier family for later families without UNIT
+\* recorded deviation of the parsers (see notes/C35.md); the flag tells the harness where it can show.
+\* (KF-C35-1, OpenMetrics timestamp truncation, and KF-C35-2, stale __unit__ label, were found with this check and are
+\* fixed; the replay now fails if either returns.)
 \* KF-C35-3: the Prometheus text lexer only accepts digits as timestamp: a negative timestamp makes the parse fail
 KF3 == \E f \in DOMAIN payload : \E m \in DOMAIN payload[f].ms : payload[f].ms[m].ts = "neg"
-KF2 == tu /\ \E f, g \in DOMAIN payload : f < g /\ payload[f].unit /\ ~payload[g].unit
 
 
 -----------------------------------------------------------------------------
 Behaviour ==
   [payload |-> payload, tu |-> tu,
    text |-> es["text"], om |-> es["om"], proto |-> es["proto"],
-   kf1 |-> KF1, kf2 |-> KF2, kf3 |-> KF3, mut |-> Mutate]
+   kf3 |-> KF3, mut |-> Mutate]
 
 EmitAll == PrintT("@@TR " \o ToJson(Behaviour))
 =============================================================================
